@@ -2,7 +2,7 @@ import SpVerif.Model.PackFS
 namespace SpVerif
 open PackFS
 /-- `move_retry` is idempotent: repeating a completed move changes nothing (its `exists(p1)` guard) -/
-theorem C19_move_idempotent (s : St) (m : Nat × Nat) (h : m.1 ≠ m.2) 
+theorem C19_move_idempotent (s : St) (m : Nat × Nat) (h : m.1 ≠ m.2) :
     applyMove (applyMove s m) m = applyMove s m := by
   unfold applyMove
   cases hf : s.find? (fun e => e.1 == m.1) with
